@@ -139,7 +139,13 @@ def oracle_streams(ctx: Ctx, case):
         ctx.close(np.asarray(out.returns)[e], ref_ret, "C03/vmapped-stream-returns", rtol=RT, atol=AT * m, env=e)
 
 
-PARTS = {"formula": oracle_formula, "exhaustive": oracle_formula, "cut": oracle_cut, "streams": oracle_streams}
+def _e2e(ctx, case):
+    from checks import e2e_c03 as c03_e2e
+
+    return c03_e2e.oracle_e2e(ctx, case)
+
+
+PARTS = {"formula": oracle_formula, "exhaustive": oracle_formula, "cut": oracle_cut, "streams": oracle_streams, "e2e": _e2e}
 
 # ----------------------------------------------------------------------------- strategies
 _val = st.one_of(
@@ -251,9 +257,6 @@ def run(ctx: Ctx):
     ctx.run_given("streams", stream_cases(), oracle_streams, ctx.n(400, 8000))
     ctx.require_fraction("formula", "nontrivial", 0.3)
     ctx.require_fraction("cut", "effective", 0.5)
-    try:
-        from checks import c03_e2e
-    except ImportError:
-        c03_e2e = None
-    if c03_e2e is not None:
-        c03_e2e.run(ctx)
+    from checks import e2e_c03 as c03_e2e
+
+    c03_e2e.run(ctx)
